@@ -13,6 +13,7 @@ import Zed.Model.ZsonGuard
   `(C02 rt <scope> <persist> (T V) …)`     → `(ok|changed|(err e) …)` model round trip through a stream reader
   `(C02 guard (T V))`                      → the theorem's guard: plain=b wfTy=b wfVal=b bareEmpty=b
   `(C02 guardnamed (T V))`                 → 1 | 0: the guard of zson_roundtrip_value_named_top_partial (fresh formatter)
+  `(C02 guardstream (T V) …)`              → 1 | 0: the guard of zson_roundtrip_stream_partial
   `(C02 fmttype T)`                        → type ast
   `(C02 rttype T)`                         → ok | changed | (err e)
   `(C02 quote <kind> <letters-hex> hex)`   → hex of the token; kind = string | name | tname | tnameRaw | enumval;
@@ -319,6 +320,10 @@ def handle : List Sexp → String
   | [.atom "guardnamed", tv] =>
     match decTV tv with
     | some (t, v) => if namedTopGuard t v then "1" else "0"
+    | none => "bad-op"
+  | .atom "guardstream" :: tvs =>
+    match tvs.mapM decTV with
+    | some items => if items.all itemOK && namesConsistent items then "1" else "0"
     | none => "bad-op"
   | [.atom "fmttype", t] =>
     match decTy t with
